@@ -85,6 +85,41 @@ theorem applyAction_slot {sd sd' : Side σ} {sq sq' : SimQueue} {now : Int} {cl 
       rw [list_set_self]
       simp [hm]
 
+/-- `apply_action` leaves the queue alone or pushes one TimerBegin stamped with the clock -/
+theorem C18_aux {sd sd' : Side σ} {sq sq' : SimQueue} {now : Int} {cl : Bool} {a : TAction}
+    (h : applyAction sd sq now cl a = .ok (sd', sq')) :
+    sq' = sq ∨ ∃ m, sq' = sq.pushSim ⟨.timerBegin m, now, cl, false, false, false⟩ := by
+  cases a with
+  | cancel m t =>
+    left
+    simp only [applyAction] at h
+    split at h
+    · cases h
+    · split at h
+      · cases h
+      · cases t <;> simp at h <;> exact h.2.symm
+  | sendPadding to b r m =>
+    left
+    simp only [applyAction] at h
+    split at h
+    · cases h
+    · simp at h; exact h.2.symm
+  | blockOutgoing to d b r m =>
+    left
+    simp only [applyAction] at h
+    split at h
+    · cases h
+    · simp at h; exact h.2.symm
+  | updateTimer d r m =>
+    simp only [applyAction] at h
+    cases hc : sd.schedTimer[m]? with
+    | none => simp [hc] at h
+    | some cur =>
+      simp only [hc] at h
+      split at h
+      · right; simp at h; exact ⟨m, h.2.symm⟩
+      · left; simp at h; exact h.2.symm
+
 theorem doScheduledAction_event {st st' : St σ} {target : Int} {e : SimEvent}
     (h : doScheduledAction st target = .ok (e, st')) :
     e.time = target ∧ ∃ i a, (st.side e.client).schedAction[i]? = some (some a) ∧ a.time = target ∧
